@@ -7,7 +7,8 @@ PROP = {
   "saml2_tophat.response:AuthnResponse.verify",
   "saml2_tophat.response:AuthnResponse._assertion",
   "saml2_tophat.sigver:SecurityContext.correctly_signed_response",
-  "saml2_tophat.sigver:SecurityContext._check_signature"
+  "saml2_tophat.sigver:SecurityContext._check_signature",
+  "saml2_tophat.client_base:Base.parse_authn_request_response"
  ],
  "bounded": [
   "sig_table"
